@@ -461,7 +461,8 @@ def gen_eq(rng, stale):
                 shape.append((sh, t))
         d["fs"], d["shape"] = fs, shape
     arr = None
-    if rng.random() < 0.5:
+    want_arr = rng.random() < 0.5
+    if want_arr and stale:      # the compiler creates anonymous types before the named types are initialised
         e = rng.choice(decls)
         arr = (F.op("A:%s:2" % e["h"]), e)
     order = list(decls)
@@ -470,6 +471,9 @@ def gen_eq(rng, stale):
     anon = None
     for d in order:
         F.op("i:%s:T:%s:%s" % (d["h"], hx("main"), F.fields_str(d["fs"])))
+    if want_arr and not stale:
+        e = rng.choice(decls)
+        arr = (F.op("A:%s:2" % e["h"]), e)
     if rng.random() < 0.6:
         e = rng.choice(decls)
         anon = (F.struct("main", [("a", False, False, e["h"], ""), ("b", False, False, BASIC["int"], "")]), e)
